@@ -173,8 +173,10 @@ impl Clone for Tracked {
     }
 }
 
-/// A second tracked type with a different size and alignment (16 bytes, align 8) for ArcUnion.
-#[repr(C)]
+/// A second tracked type with a different size and an OVER-ALIGNED layout (16 bytes, align 16: the
+/// data field of its ArcInner sits at offset 16, not 8) for ArcUnion's second variant and for the
+/// raw-pointer / ArcBorrow paths of sized payloads.
+#[repr(C, align(16))]
 pub struct TrackedB { pub id: u64, pub val: u64 }
 impl TrackedB {
     pub fn new(id: u64, val: u64) -> Self { id_set(id, true); TrackedB { id, val } }
